@@ -1,6 +1,6 @@
 import Heathcliff.Proofs.C14S
 import Heathcliff.Proofs.C14T
-import Heathcliff.Proofs.GenSerM
+import Heathcliff.Proofs.GenSerS
 /-
   C14  Serialization round-trips every object exactly, sizes exact, across contexts.
 
@@ -353,6 +353,20 @@ theorem gen_ct_full_reader_agrees : type_of% @HC.GS.gf_full_ok := @HC.GS.gf_full
 
 /-- flat-word format, from source to source: generated reader ∘ generated writer = the round-trip value (seed expanded), with continuation -/
 theorem gen_ct_full_source_round_trip : type_of% @HC.GS.c14g_ct_full_source_round_trip := @HC.GS.c14g_ct_full_source_round_trip
+
+/-- `SecretKey` (writer, reader, size) = its plaintext's, from the source; source round trip -/
+theorem gen_secret_key : type_of% @HC.GS.c14g_secret_key := @HC.GS.c14g_secret_key
+
+/-- KEY SETS, sizes from the source: generated `KSwitchKeys::serialized_size` (through `PublicKey`, the context `Vec<I>`, `Ciphertext`
+    size functions) = `kswitchC.size`; `RelinKeys` / `GaloisKeys` are the same function -/
+theorem gen_kswitch_sizes_are_model : type_of% @HC.GS.gs2_kswitch_size := @HC.GS.gs2_kswitch_size
+
+/-- … hence announced size = count returned by the writer = bytes on the wire, all three from the source -/
+theorem gen_kswitch_announced_eq_written : type_of% @HC.GS.c14g_kswitch_announced_eq_written := @HC.GS.c14g_kswitch_announced_eq_written
+
+/-- STATEMENT ONLY (not proved): the generated COMPACT reader `Ciphertext::deserialize` returns the model's round-trip value on every valid
+    encoding.  Proved about that reader: prefix monotonicity (Props/C15 `gen_ct_reader_truncation_partial`). -/
+def GenCtSourceRoundTripStatement : Prop := HC.GS.GenCtSourceRoundTripStatement
 
 /-! non-vacuity of the phase-4i statements -/
 example : HC.GenS.plain_deserialize ((HC.GenS.plain_serialize HC.GS.idealStream ⟨[1, 2, 3, 4], [7, 8], 4607182418800017408⟩ []).2 ++ [9, 9])
